@@ -17,7 +17,7 @@ PROBES = ["workers>1", "switches>0", "multi_file", "unequal_file_sizes", "parque
           "pred_chunks>=2", "train_chunks>=2", "switch_in_get_rows", "switch_in_predict_fold",
           "scan_only_key", "four_col_key", "multi_psm_spectra", "fallback_best_feature",
           "brew_raised", "fold_without_accept", "dup_scan_other_mass", "pct_schedule", "pred_chunk_lacks_fold",
-          "proba_only_learner"]
+          "proba_only_learner", "tied_raw_outputs"]
 
 
 def make_scenario(prop, seed):
@@ -52,6 +52,9 @@ def make_scenario(prop, seed):
         # keeps most runs informative; the statement holds for either setting
         "override": rng.random() < 0.8,
     }
+    if prop == "C11" and rng.random() < 0.25:
+        # a coarse output scale: exact ties between raw scores, also at the acceptance threshold
+        cfg["est_kw"] = {"round_out": rng.choice([0, 1, 1])}
     # boundary values are taken relative to the ACTUAL row counts (building the tables is cheap)
     sizes = [len(t["rows"]) for t in P.build_tables(dp)]
     kn = {}
@@ -131,6 +134,7 @@ def run_scenario(scn, workdir, want):
         "four_col_key": int(len(spec_cols) == 4),
         "pct_schedule": int((scn.get("sched") or {}).get("mode") == "pct"),
         "proba_only_learner": int(cfg["learner"] == "plda"),
+        "tied_raw_outputs": int(bool((cfg.get("est_kw") or {}).get("round_out") is not None)),
         "dup_scan_other_mass": int(bool(scn["data"].get("dup_scan_frac")) and "ExpMass" in scn["data"]["spec_extra"]),
         "pred_chunk_lacks_fold": int(kn.get("CHUNK_SIZE_ROWS_PREDICTION", 10**9) < 2 * cfg["folds"]),
     }
